@@ -115,7 +115,9 @@ def rand_op(rng, g, D, corr, nimg=1):
                     for e, n_, c_ in zip(ext, n, cur)]
             if not frac and any(cand):
                 sp = [rng.choice(c_) if c_ and rng.random() < .8 else cu for c_, cu in zip(cand, cur)]
-                if sp != cur:
+                # axes that keep their spacing must have an exactly representable one (the exact model divides the exact
+                # extent by the float value: a float32-rounded 10/3 would flip the ceiling)
+                if sp != cur and all(s_ != c_ or abs(c_ * 16 - round(c_ * 16)) < 1e-9 for s_, c_ in zip(sp, cur)):
                     return {"op": k, "spacing": sp}
         for _ in range(20):
             sp = [rng.choice([0.5, 0.75, 1.0, 1.25, 1.5, 2.0]) for _ in range(D)]
